@@ -90,7 +90,7 @@ CHECKS = {
         "coverage_extra": {"explanation": "exhaustive is per scenario: all transport operation indices of the fault-free run are swept (probes.sweep_cases / sweep_scenarios); scenarios themselves are sampled"},
     },
     "C07": {
-        "claim": "same simulated sessions as C06 biased to capability traffic (the same capability sent repeatedly, partial Releases, Finish with releaseResultCaps before or after the Return, Returns with releaseParamCaps, local AddRef/Release of imports racing with newly arriving references); conservation is checked from the wire history: peer reference counts never go negative, a Release never exceeds the references actually delivered, application capabilities are not released while the peer holds a reference and the connection is open, after an orderly wind-down every table is empty and every capability released, and after Close each capability has been released exactly once; in the two-Conn topology: no application capability shut down while a caller holds a handle designating it, both Conns' question/answer/export/import/embargo tables empty once every handle is released and every call finished, every capability shut down exactly once; payloads may name one capability in two capability-table entries (parameters and results), given back in bulk by releaseParamCaps / releaseResultCaps",
+        "claim": "same simulated sessions as C06 biased to capability traffic (the same capability sent repeatedly, partial Releases, Finish with releaseResultCaps before or after the Return, Returns with releaseParamCaps, local AddRef/Release of imports racing with newly arriving references); conservation is checked from the wire history: peer reference counts never go negative, a Release never exceeds the references actually delivered, application capabilities are not released while the peer holds a reference and the connection is open, after an orderly wind-down every table is empty and every capability released, and after Close each capability has been released exactly once; in the two-Conn topology: no application capability shut down while a caller holds a handle designating it, both Conns' question/answer/export/import/embargo tables empty once every handle is released and every call finished, every capability shut down exactly once; payloads may name one capability in two capability-table entries (parameters and results), given back in bulk by releaseParamCaps / releaseResultCaps; the otherwise conforming peer may send a call whose capability table holds a good descriptor followed by one naming a non-existent export (exception expected, the reference received with the first descriptor must be given back)",
         "engine": "rpcsim", "level": "exploration",
         "budget": {"quick": 30, "thorough": 900},
         "min_runs": {"quick": 12000},
